@@ -9,6 +9,7 @@
 (*                   pair: "no" | "same" | "term" (the block also carries, FIRST, an attempt with  *)
 (*                   too little gas by the same sender - of the same call, or of a termination:    *)
 (*                   two contract transactions share one block state and one VM environment)       *)
+(*                   | "samerin" (the same with a plain transfer INTO the recipient in between)     *)
 (*                   | "sw-<mid>-<tail>": a SANDWICH block, see below                              *)
 (*                   | "pf-block" | "pf-mid" | "pf-mid-emb": the address the operation is about to *)
 (*                   create already holds coins (pre-funded future contract address)].             *)
@@ -103,12 +104,16 @@ Creates(k, op) == op.m = "deploy" \/ (k = "payer" /\ op.m \in {"spawn", "spawnlo
 
 TxOps(k) == {[m |-> m, arg |-> a, amt |-> p, gas |-> g, who |-> r, pair |-> pr] :
                 m \in Methods(k) \cup {"deploy", "terminate", "unknown"},
-                a \in ArgClasses, p \in AmtClasses, g \in GasClasses, r \in Roles, pr \in {"no", "same", "term"} \cup Sandwiches \cup Prefunds}
+                a \in ArgClasses, p \in AmtClasses, g \in GasClasses, r \in Roles, pr \in {"no", "same", "term", "samerin"} \cup Sandwiches \cup Prefunds}
 Ops(k) == {op \in TxOps(k) :
               /\ Dev(k, op) <= MaxDev
               /\ (op.arg \in {"toself", "tosender"} => HasRcpt(k, op.m) /\ op.pair \in {"no", "same"})
               /\ (op.pair \in {"same", "term"} => Embedded(k) /\ op.gas \in {"exact", "enough"})
               /\ (op.pair = "term" => op.m # "deploy")
+              \* "samerin": like "same" - the attempt with too little gas runs out of it at the very end, after it has moved the
+              \* coins inside the execution context -, then a plain transfer INTO the operation's recipient, then the operation
+              /\ (op.pair = "samerin" => Embedded(k) /\ HasRcpt(k, op.m) /\ op.m # "terminate" /\ op.gas = "enough" /\ op.arg \in {"valid", "valid2"}
+                                          /\ op.amt = DefAmt(k, op.m) /\ op.who = DefWho(k, op.m))
               /\ (IsSandwich(op) => /\ (op.arg = "valid" \/ (op.arg = "valid2" /\ op.pair \in {"sw-self-again", "sw-cin-again", "sw-xout-emb"}))
                                     /\ op.gas = "enough" /\ op.m # "unknown"
                                     /\ (op.pair \in {"sw-none-termemb", "sw-self-termemb", "sw-cin-termemb", "sw-xout-termemb"} => Embedded(k) /\ op.m # "terminate")
